@@ -209,7 +209,7 @@ def load_known(prop_id):
 SRC_TIE = {
     'C01': ['Codec'], 'C02': ['Codec'], 'C03': ['Codec'],
     'C04': ['Tok'], 'C05': ['Tok'], 'C06': ['Tok'], 'C18': ['Tok'], 'C19': ['Tok'],
-    'C07': ['Vlq', 'Tracks'], 'C08': ['Vlq'], 'C09': ['Meta', 'Vlq'],
+    'C07': ['Vlq', 'Tracks', 'Writer'], 'C08': ['Vlq', 'Writer'], 'C09': ['Meta', 'Vlq'],
     'C12': ['Tracks'], 'C16': ['Tracks'],
 }
 SRC_TIE_FILES = {
@@ -218,6 +218,7 @@ SRC_TIE_FILES = {
     'Meta': ['mido/midifiles/meta.py'],
     'Vlq': ['mido/midifiles/meta.py', 'mido/midifiles/midifiles.py'],
     'Tracks': ['mido/midifiles/tracks.py'],
+    'Writer': ['mido/midifiles/midifiles.py', 'mido/midifiles/tracks.py', 'mido/midifiles/meta.py'],
 }
 
 
@@ -350,6 +351,13 @@ class Check:
             reqs.append(f'pyop bitlen {a}'); want.append(str(a.bit_length()))
         for b in (0, 1, 2, 7, 255, -1):
             reqs.append(f'pyop pow 2 {b}'); want.append('ok %d' % (2 ** b) if b >= 0 else 'err TypeError')
+        for n in (0, 1, 255, 256, 65536, 2 ** 32 - 1, 2 ** 32, -1, 305419896):
+            import struct
+            try:
+                w = 'ok ' + ' '.join(map(str, struct.pack('>L', n)))
+            except struct.error:
+                w = 'err StructError'
+            reqs.append(f'pyop pack {n}'); want.append(w)
         for xs in ([], [5], [5, 6, 7]):
             for i in (-4, -3, -1, 0, 1, 2, 3):
                 reqs.append('pyop idx %d %s' % (i, ' '.join(map(str, xs)))); want.append(py(lambda: xs[i]))
